@@ -90,7 +90,18 @@ def build(model, ranks=None, plain=False, default_resource_ids=False, share_id_o
         if model.get("comp_ctor_tasks"):
             # the component is handed its tasks through the constructor (registered on the component side only)
             ckw["targeted_task_list"] = [tasks[i] for i, tj in enumerate(model["tasks"]) if tj.get("comp") == len(comps)]
-        c_ = Component(name=cj.get("name", cj["id"]), ID=cj["id"], space_size=cj.get("size", 1.0), **ckw)
+        if model.get("comp_copies") and not ckw:
+            # components made as shallow copies of one template, every setting then given per component (the copies share
+            # the template's empty log lists until the first initialisation)
+            import copy as _copy
+            if "_ctmpl" not in model.get("_build_cache", {}):
+                model.setdefault("_build_cache", {})["_ctmpl"] = Component(name="template", ID="template")
+            c_ = _copy.copy(model["_build_cache"]["_ctmpl"])
+            c_.name, c_.ID, c_.space_size = cj.get("name", cj["id"]), cj["id"], cj.get("size", 1.0)
+            c_.parent_component_list, c_.child_component_list, c_.targeted_task_list = [], [], []
+            c_.placed_workplace = None
+        else:
+            c_ = Component(name=cj.get("name", cj["id"]), ID=cj["id"], space_size=cj.get("size", 1.0), **ckw)
         if not plain and cj["id"] in ranks:
             c_._rank = ranks[cj["id"]]
         comps.append(c_)
